@@ -14,7 +14,7 @@ func init() {
 		NonTrivial: func(o *Outcome) bool {
 			return o.Hist.Probes["request-surely-inside-period"] > 0
 		},
-		Rule:         "seeded plans on one key: hit-for-pass in {unset, 0s, -1s, 1s, 2s, 5s, 300s}; origin answers alternate cacheable / uncacheable / failing; bursts of 1-6 concurrent requests before, during (replies withheld until every other action is exhausted: a request that can only proceed after another's reply is queueing) and after the period; default period bracketed at +299s / +302s. in a quarter of the plans a tenth of the clients disconnect at a scheduler-chosen step (fault client-disconnect). non-trivial = at least one request lay surely inside a hit-for-pass period; distinct = distinct history hash",
+		Rule:         "seeded plans on one key: hit-for-pass in {unset, 0s, -1s, 1s, 2s, 5s, 300s}; origin answers alternate cacheable / uncacheable / failing; bursts of 1-6 concurrent requests before, during (replies withheld until every other action is exhausted: a request that can only proceed after another's reply is queueing) and after the period; default period bracketed at +299s / +302s. in a quarter of the plans a tenth of the clients disconnect at a scheduler-chosen step (fault client-disconnect). in a quarter of the store-less plans the unchanged configuration is applied again inside the period. non-trivial = at least one request lay surely inside a hit-for-pass period; distinct = distinct history hash",
 		ExpectProbes: []string{"request-surely-inside-period", "burst-inside-period-withheld", "request-after-period", "default-period-299s", "default-period-302s", "probe-after-period-cacheable", "waiter-released-by-uncacheable-fetch"},
 	})
 }
@@ -89,6 +89,11 @@ func genC07(g *Gen) *Plan {
 			inside = g.n(0, max(0, hfp*1000-900))
 		}
 		p.Ops = append(p.Ops, sleepOp(inside, true))
+		if !withStore && g.p(0.25) {
+			// the unchanged configuration is applied again inside the period (an update that
+			// touched something else): the cache and its markers stay
+			p.Ops = append(p.Ops, Op{Kind: OpReload, Config: 0, Barrier: true}, Op{Kind: "noop", Barrier: true})
+		}
 		if withStore {
 			ev := reqOp("GET", hostA, fmt.Sprintf("/evictor%d", rd))
 			ev.Barrier = true
